@@ -681,6 +681,7 @@ func (c *Client) Do(ctx context.Context, q Query) (err error) {
 	done := make(chan struct{})
 	var (
 		gotException atomic.Bool
+		recvFailed   atomic.Bool
 		colInfo      chan proto.ColInfoInput
 	)
 	if q.Result == nil && len(q.Input) > 0 {
@@ -742,10 +743,17 @@ func (c *Client) Do(ctx context.Context, q Query) (err error) {
 		verifAt(ctx, c, "S.ret", nil)
 		return nil
 	})
-	g.Go(func() error {
+	g.Go(func() (err error) {
 		// Receiving query result, data and telemetry.
 		defer verifAt(ctx, c, "R.done")
 		defer close(done)
+		defer func() {
+			// Must be visible to the cancel watcher before done is closed:
+			// the group context is canceled only after this function returns.
+			if err != nil {
+				recvFailed.Store(true)
+			}
+		}()
 		if colInfo != nil {
 			defer close(colInfo)
 		}
@@ -794,9 +802,14 @@ func (c *Client) Do(ctx context.Context, q Query) (err error) {
 		<-done
 		verifAt(ctx, c, "W.wake")
 		// Handling query cancellation if needed.
-		if ctx.Err() != nil && !gotException.Load() {
+		if (ctx.Err() != nil || recvFailed.Load()) && !gotException.Load() {
 			err := multierr.Append(ctx.Err(), c.cancelQuery())
 			verifAt(ctx, c, "W.ret", err)
+			if err == nil {
+				// Canceled because of the receiver failure, which is
+				// reported by the receiver itself.
+				return nil
+			}
 			return errors.Wrap(err, "canceled")
 		}
 		verifAt(ctx, c, "W.ret", nil)
